@@ -137,6 +137,12 @@ func Run(dir, tier string, seed int64) error {
 		{"slo-query", func(m string) idp.ReqSpec {
 			return idp.ReqSpec{Method: http.MethodGet, Path: "/SLO", Query: []idp.Param{idp.Q("SAMLRequest", m)}}
 		}},
+		{"sso-form-undeclared", func(m string) idp.ReqSpec { // a deflated payload in a POST form that does not say so
+			return idp.ReqSpec{Method: http.MethodPost, Path: "/SSO", Body: []idp.Param{idp.Q("SAMLRequest", m)}}
+		}},
+		{"slo-form-undeclared", func(m string) idp.ReqSpec {
+			return idp.ReqSpec{Method: http.MethodPost, Path: "/SLO", Body: []idp.Param{idp.Q("SAMLRequest", m)}}
+		}},
 		{"slo-form", func(m string) idp.ReqSpec {
 			return idp.ReqSpec{Method: http.MethodPost, Path: "/SLO", Body: []idp.Param{idp.Q("SAMLRequest", m), idp.Q("SAMLEncoding", idp.Deflate)}}
 		}},
@@ -145,11 +151,33 @@ func Run(dir, tier string, seed int64) error {
 	if tier == "thorough" {
 		big = append(big, 1<<30)
 	}
-	for _, n := range big {
-		for _, place := range []string{"comment", "text", "attribute", "after-root"} {
-			for vi, valid := range []bool{true, false} {
-				msg := bomb(n, place, valid)
-				e := eps[(id+vi)%len(eps)]
+	// every endpoint sees every size; padding place and document validity rotate so that each (endpoint, place) and
+	// (endpoint, validity) pair occurs with a payload far above the cap
+	places := []string{"comment", "text", "attribute", "after-root"}
+	cache := map[string]string{}
+	k := 0
+	for ei, e := range eps {
+		for ni, n := range big {
+			combos := 1
+			if n == 64<<20 {
+				combos = 4
+				if tier == "thorough" {
+					combos = 8
+				}
+			}
+			for c := 0; c < combos; c++ {
+				place := places[(ei+ni+c)%len(places)]
+				valid := (c/4+ei+k)%2 == 0
+				if combos >= 4 {
+					place = places[c%4]
+				}
+				k++
+				key := fmt.Sprintf("%d/%s/%v", n, place, valid)
+				msg, ok := cache[key]
+				if !ok {
+					msg = bomb(n, place, valid)
+					cache[key] = msg
+				}
 				var rep *idp.Reply
 				env.Storage.ResetLog()
 				alloc := measure(func() { rep = env.Do(e.spec(msg).HTTP()) })
@@ -206,6 +234,6 @@ func Run(dir, tier string, seed int64) error {
 			id++
 		}
 	}
-	run.Res.Rule = "DEFLATE payloads inflating to 1 MiB .. 128 MiB (thorough: 1 GiB) around the 10 MiB cap (cap-1, cap, cap+1) through the exported InflateAndDecode (result compared with the Coq read-loop model) and, with the padding in a comment / text / attribute value / after the root element, nested in valid and invalid documents, through SSO (query and form) and logout (query and form); the same 64 MiB bombs wrapped as zlib and gzip streams; runtime.MemStats.TotalAlloc around each call must stay below 64 MiB + 16 x the request size (never a function of the inflated size) and oversized payloads must not be accepted. distinct = (entry point, inflated size, padding place, document validity)."
+	run.Res.Rule = "DEFLATE payloads inflating to 1 MiB .. 128 MiB (thorough: 1 GiB) around the 10 MiB cap (cap-1, cap, cap+1) through the exported InflateAndDecode (result compared with the Coq read-loop model) and, with the padding in a comment / text / attribute value / after the root element, nested in valid and invalid documents, through SSO (query, form, form without SAMLEncoding) and logout (query, form, form without SAMLEncoding); the same 64 MiB bombs wrapped as zlib and gzip streams; runtime.MemStats.TotalAlloc around each call must stay below 64 MiB + 16 x the request size (never a function of the inflated size) and oversized payloads must not be accepted. distinct = (entry point, inflated size, padding place, document validity)."
 	return run.Finish()
 }
